@@ -60,6 +60,11 @@ var ufAxioms = map[string]func(app *Term) []*Term{
 }
 
 func init() {
+	ufAxioms["htmlesc"] = func(a *Term) []*Term {
+		v := a.Args[0]
+		special := `(re.++ re.all (re.union (str.to_re "&") (str.to_re "<") (str.to_re ">") (str.to_re "\u{22}") (str.to_re "'")) re.all)`
+		return []*Term{Eq(Eq(a, v), Not(InRe(v, special))), Le(Len(v), Len(a))}
+	}
 	ufAxioms["crnorm"] = func(a *Term) []*Term {
 		v := a.Args[0]
 		return []*Term{Eq(Eq(a, v), Not(Contains(v, StrC("\r")))), Not(Contains(a, StrC("\r")))}
